@@ -459,6 +459,21 @@ pub fn run_c09(cfg: &Config) -> i32 {
 		rep
 	});
 	total.merge(rep);
+	// deeply nested documents with non-canonical numbers and unordered keys at every level
+	{
+		let mut rep = Report::new();
+		let mut rng = Rng::new(seed).fork(0xdee9);
+		for k in 0..(if cfg.san { 4 } else { 60 }) {
+			let depth = 100 + (k * 7) % 110;
+			let inner = gen_ijson(&mut rng, 3);
+			let r = deep_wrap(&mut rng, inner, depth);
+			rep.max("deepest_canonicalized_nesting", depth as u64);
+			rep.distinct_hash(fnv(doc_of(&r).as_bytes()));
+			c09_one(&mut rep, "deep-documents", &r, k as u64);
+		}
+		rep.count("family:deep-documents", rep.evaluations);
+		total.merge(rep);
+	}
 	// objects over the key pools: every subset of up to 4 keys of each pool, in every order
 	let rep = parallel(cfg.threads, KEY_POOLS.len(), |p| {
 		let mut rep = Report::new();
@@ -763,6 +778,164 @@ fn c10_permutations(rep: &mut Report, rng: &mut Rng) {
 	rep.evaluations += 1;
 }
 
+/// One random in-place edit of some object inside `v`, staying inside the
+/// I-JSON domain (no duplicate keys); the new content is deliberately not in
+/// canonical form. Returns false when `v` holds no object.
+fn edit_in_place(rng: &mut Rng, v: &mut Value, counter: &mut u32) -> bool {
+	// descend along a random path, remembering the last object seen
+	fn pick<'a>(rng: &mut Rng, v: &'a mut Value, depth: usize) -> Option<&'a mut json_syntax::Object> {
+		match v {
+			Value::Array(a) => {
+				if a.is_empty() {
+					return None;
+				}
+				let i = rng.below(a.len());
+				pick(rng, &mut a[i], depth + 1)
+			}
+			Value::Object(o) => {
+				if !o.is_empty() && depth < 6 && rng.chance(1, 2) {
+					let i = rng.below(o.len());
+					let has_inner = matches!(o.entries()[i].value, Value::Array(_) | Value::Object(_));
+					if has_inner {
+						let key = o.entries()[i].key.clone();
+						let inner = o.get_unique_mut(key.as_str()).ok().flatten();
+						if let Some(inner) = inner {
+							// borrow dance: try the child, fall back to this object
+							let p = inner as *mut Value;
+							// SAFETY (harness only): `p` points into `o`, which outlives this call; used once.
+							if let Some(x) = pick(rng, unsafe { &mut *p }, depth + 1) {
+								return Some(x);
+							}
+						}
+					}
+				}
+				Some(o)
+			}
+			_ => None,
+		}
+	}
+	let Some(o) = pick(rng, v, 0) else { return false };
+	*counter += 1;
+	let fresh_key = format!("\u{10000}new{}", counter);
+	let noncanon = |rng: &mut Rng| -> Value {
+		match rng.below(4) {
+			0 => Value::Number("2.50".parse().unwrap()),
+			1 => Value::Number("1.0E2".parse().unwrap()),
+			2 => Value::Number("-0.0".parse().unwrap()),
+			_ => {
+				let mut inner = json_syntax::Object::new();
+				inner.push("\u{e000}".into(), Value::Number("1.0".parse().unwrap()));
+				inner.push("\u{1f600}".into(), Value::Array(vec![Value::Number("5E-1".parse().unwrap())]));
+				inner.push("a".into(), Value::Null);
+				Value::Object(inner)
+			}
+		}
+	};
+	let existing: Option<String> = if o.is_empty() { None } else { Some(o.entries()[rng.below(o.len())].key.as_str().to_string()) };
+	match (rng.below(9), existing) {
+		(0, _) | (_, None) => {
+			o.push_front(fresh_key.as_str().into(), noncanon(rng));
+		}
+		(1, _) => {
+			o.push(fresh_key.as_str().into(), noncanon(rng));
+		}
+		(2, Some(k)) => {
+			let nv = noncanon(rng);
+			*o.get_mut_or_insert_with(k.as_str(), || Value::Null) = nv;
+		}
+		(3, Some(_)) => {
+			let nv = noncanon(rng);
+			if let Some((_, slot)) = o.iter_mut().next() {
+				*slot = nv;
+			}
+		}
+		(4, Some(k)) => {
+			let _ = o.insert(k.as_str().into(), noncanon(rng));
+		}
+		(5, Some(_)) => {
+			let i = rng.below(o.len());
+			o.remove_at(i);
+		}
+		(6, Some(_)) => {
+			let _ = o.insert_front(fresh_key.as_str().into(), noncanon(rng));
+		}
+		(7, Some(k)) => {
+			let nv = noncanon(rng);
+			if let Some(slot) = o.get_mut(k.as_str()).next() {
+				*slot = nv;
+			}
+		}
+		(_, Some(k)) => {
+			let nv = noncanon(rng);
+			if let Ok(Some(slot)) = o.get_unique_mut(k.as_str()) {
+				*slot = nv;
+			}
+		}
+	}
+	true
+}
+
+/// canonicalize, edit in place, canonicalize again: the result must be the
+/// canonical form of the edited content (no memo of a previous pass may survive an edit).
+fn c10_edit_sequences(rep: &mut Report, rng: &mut Rng) {
+	let r = gen_ijson(rng, 0);
+	let mut v = from_rval(&r);
+	let mut counter = 0u32;
+	let mut log: Vec<String> = vec![doc_of(&r)];
+	for step in 0..rng.range(1, 4) {
+		if guard(|| v.canonicalize()).is_err() {
+			return;
+		}
+		let edits = rng.range(1, 3);
+		for _ in 0..edits {
+			if !edit_in_place(rng, &mut v, &mut counter) {
+				return;
+			}
+		}
+		let content = to_rval(&v);
+		log.push(doc_of(&content));
+		let mut want = String::new();
+		jcs::jcs(&content, &mut want);
+		rep.evaluations += 1;
+		rep.count("canonicalize_edit_canonicalize_steps", 1);
+		match canon_real(&v, step % 3) {
+			Ok((c, got)) => {
+				if got != want {
+					rep.violation(
+						"C10:stale-after-edit",
+						format!("after canonicalize + in-place edits the content is {} ; canonicalizing it gives `{}`, expected `{}`", show(doc_of(&content).as_bytes()), show(got.as_bytes()), show(want.as_bytes())),
+						json!({"sub": "jcs", "value_compact": doc_of(&content), "history": log}),
+					);
+					return;
+				}
+				if let Ok(Err(m)) = guard(|| check_queryable(&c)) {
+					rep.violation("C10:stale-index", format!("after canonicalize + edits + canonicalize of {}: {}", show(doc_of(&content).as_bytes()), m), json!({"sub": "canon-invariance", "value_compact": doc_of(&content)}));
+					return;
+				}
+				v = c;
+			}
+			Err(p) => {
+				rep.violation("C10:panic", format!("canonicalize panicked after edits: {}", p), json!({"sub": "jcs", "value_compact": doc_of(&content)}));
+				return;
+			}
+		}
+	}
+	rep.distinct_hash(fnv(log.join("|").as_bytes()));
+}
+
+/// A non-canonical document wrapped in `depth` levels of containers.
+fn deep_wrap(rng: &mut Rng, inner: RVal, depth: usize) -> RVal {
+	let mut v = inner;
+	for d in 0..depth {
+		v = match (d + rng.below(2)) % 3 {
+			0 => RVal::Arr(vec![RVal::Num("1.0".into()), v, RVal::Num("2.50e1".into())]),
+			1 => RVal::Obj(vec![("\u{1f600}".into(), RVal::Num("1E2".into())), ("\u{e000}".into(), v), ("a".into(), RVal::Num("5E-1".into()))]),
+			_ => RVal::Arr(vec![v]),
+		};
+	}
+	v
+}
+
 pub fn run_c10(cfg: &Config) -> i32 {
 	let started = Instant::now();
 	let mut total = Report::new();
@@ -788,6 +961,43 @@ pub fn run_c10(cfg: &Config) -> i32 {
 			}
 			if i == 0 && k < 2 {
 				rep.sample(json!({"family": "documents-and-rewritings", "value_compact": show(doc_of(&probe).as_bytes())}));
+			}
+		}
+		rep
+	});
+	total.merge(rep);
+	// canonicalize / edit in place / canonicalize again, and deeply nested documents
+	let n = cfg.budget(25_000, 2_000_000);
+	let rep = parallel(cfg.threads, shards, |i| {
+		let mut rep = Report::new();
+		let mut rng = Rng::new(seed).fork(0xc12e + i as u64);
+		let mut rd = Reader::new();
+		for k in 0..(n / shards as u64).max(1) {
+			c10_edit_sequences(&mut rep, &mut rng);
+			if k % 64 == 0 {
+				// depth 100..200: every level holds non-canonical numbers and keys out of order
+				let depth = rng.range(100, 200);
+				let inner = gen_ijson(&mut rng, 3);
+				let r = deep_wrap(&mut rng, inner, depth);
+				rep.max("deepest_canonicalized_nesting", depth as u64);
+				let d = DVal::Null;
+				let _ = d;
+				// C09-style equality with the oracle plus the C10 monitors on the deep document
+				rep.evaluations += 1;
+				let mut want = String::new();
+				jcs::jcs(&r, &mut want);
+				match canon_real(&from_rval(&r), (k % 3) as usize) {
+					Ok((c, got)) => {
+						if got != want {
+							rep.violation("C10:deep-document", format!("a document nested {} levels canonicalizes to `{}`, expected `{}`", depth, show(got.as_bytes()), show(want.as_bytes())), json!({"sub": "jcs", "value_compact": doc_of(&r)}));
+						}
+						if let Ok(Err(m)) = guard(|| check_queryable(&c)) {
+							rep.violation("C10:stale-index", format!("after canonicalizing a document nested {} levels: {}", depth, m), json!({"sub": "canon-invariance", "value_compact": doc_of(&r)}));
+						}
+					}
+					Err(p) => rep.violation("C10:panic", format!("canonicalize panicked on a document nested {} levels: {}", depth, p), json!({"sub": "jcs", "value_compact": doc_of(&r)})),
+				}
+				let _ = &mut rd;
 			}
 		}
 		rep
@@ -831,7 +1041,7 @@ pub fn run_c10(cfg: &Config) -> i32 {
 		cfg,
 		EvidenceMeta {
 			id: "C10",
-			rule: "a case is an I-JSON document (numbers held as exact decimals) with 5 meaning-preserving rewritings each (random permutation of every object's members, exact respelling of every number by moving the decimal point / exponent, trailing fractional zeros, e/E, +, alternative escapes of string characters, whitespace), every permutation of the members of small objects, and pairs of numerically equal number spellings (incl. -0/0); checked: idempotence (value and bytes), byte-identical canonical output of every rewriting, preservation (shape, strings, literals, key sets, each number's double), and full queryability + index invariant of every object of the result; distinct by hash; non-trivial = every case",
+			rule: "a case is an I-JSON document (numbers held as exact decimals) with 5 meaning-preserving rewritings each (random permutation of every object's members, exact respelling of every number by moving the decimal point / exponent, trailing fractional zeros, e/E, +, alternative escapes of string characters, whitespace), every permutation of the members of small objects, and pairs of numerically equal number spellings (incl. -0/0), canonicalize / in-place edit (push_front, insert, writes through every kind of handed-out reference, removals) / canonicalize sequences, and documents nested 100-200 levels with non-canonical content at every level; checked: idempotence (value and bytes), byte-identical canonical output of every rewriting, preservation (shape, strings, literals, key sets, each number's double), and full queryability + index invariant of every object of the result; distinct by hash; non-trivial = every case",
 			exhaustive: false,
 			assumptions: vec!["respellings are produced from an exact decimal (digit string, power of ten), so they denote the same real number by construction".into()],
 			extra: json!({}),
